@@ -17,6 +17,42 @@ Theorem C17_at_most_once :
 Proof. exact (fun w scanned ls o => at_most_once_M w scanned ls o eq_refl). Qed.
 Print Assumptions C17_at_most_once.
 
+(* whenever the installation routine ran a built-in glue function for a module object, that object
+   offered no (not yet consumed) glue of its own: module-provided glue is never passed over *)
+Theorem C17_prefers_module :
+  forall w scanned ls f n o,
+    let s := run src_cfg w ls (init w scanned) in
+    In (EvCallB f n (Some o)) (log s) -> glue_of w o = None \/ In o (popped s).
+Proof. exact (fun w scanned ls f n o => prefers_module w scanned ls f n o eq_refl). Qed.
+Print Assumptions C17_prefers_module.
+
+(* a glue function that raises Exception costs one RuntimeWarning: the thread keeps the lock and
+   goes on with the rest of its snapshot (any state, hence any schedule before it) ... *)
+Theorem C17_failure_is_warning :
+  forall w s t nm mf bf cur todo n fs mk,
+    thr s t = PCall nm mf bf cur todo n ->
+    selected w mf bf = Some (fs, mk) -> fbeh fs = BRaise ->
+    let s' := step src_cfg w (LThr t) s in
+    (exists ev, log s' = EvWarn mk nm :: ev :: log s /\ is_call ev = true)
+    /\ thr s' t = PScan todo n /\ lock s' = lock s /\ cache s' = cache s /\ pend s' = pend s.
+Proof. exact (fun w s t nm mf bf cur todo n fs mk => @raise_is_warning w s t nm mf bf cur todo n fs mk eq_refl). Qed.
+Print Assumptions C17_failure_is_warning.
+
+(* ... and, left to run, visits every remaining name, writes the cache and returns normally,
+   whatever the remaining glue functions do short of raising BaseException *)
+Theorem C17_failure_scan_completes :
+  forall w t, no_base w ->
+  forall todo s n, thr s t = PScan todo n ->
+  exists k, let s' := run src_cfg w (repeat (LThr t) k) s in
+    thr s' t = PDone true /\ cache s' = n /\ In (EvRet t true) (log s').
+Proof. exact (fun w t => @scan_completes w t eq_refl). Qed.
+Print Assumptions C17_failure_scan_completes.
+
+Example C17_failure_hypotheses_met :
+  no_base f13_world /\
+  selected (mkworld 1 [OMod (Some (mkfn BRaise []))] []) (Some 0) (Some 3) = Some (mkfn BRaise [], true).
+Proof. split; [split; [intros [|[|o]] fs H; inversion H; discriminate | intros [|[|f]]; discriminate]|reflexivity]. Qed.
+
 Theorem C17_F4_refuted :
   exists w scanned h t n o,
     hist_ok h = true /\
@@ -34,3 +70,27 @@ Theorem C17_never_both_refuted :
     In (EvImm f n) (log s) /\ (exists d, In (EvCallM o n d) (log s)) /\ g_bad s = true.
 Proof. exact never_both_refuted. Qed.
 Print Assumptions C17_never_both_refuted.
+
+(* ---------------------------------------------------------------------------------------------
+   NOT PROVED (statements kept; each is checked by the direct oracle of harness/c17.py on every
+   generated history and checkpoint-driven schedule, see CONFIG["unproved_legs"]):
+
+   C17_timely (under no_removal_since_last_scan):
+     forall w scanned ls1 t ls2 n o, 1 <= w_base w ->
+       let s1 := run src_cfg w ls1 (init w scanned) in
+       (thr s1 t = PIdle \/ exists b, thr s1 t = PDone b) -> pendingM w s1 n o ->
+       g_since_cache s1 = false -> g_since_snap s1 = false ->
+       let s2 := run src_cfg w (LThr t :: ls2) s1 in
+       g_nrem s2 = g_nrem s1 -> first_return_of t (LThr t :: ls2) s1 = Some true -> calledM s2 o.
+     (proof route worked out in the builder's notes: invariants L1 mutual exclusion, A1-A5 "cache value
+      = length of a snapshot all of whose modules are settled", K1-K4 loop invariant of the scan in
+      progress; the ghost fields g_since_*, g_snap_* of M_Glue.st exist for this proof.)
+     C17_F4_refuted above is the witness that the hypothesis cannot be dropped.
+
+   C17_never_both (under g_bad = false, i.e. built-in glue registered before the module's first import):
+     forall w scanned ls n o f d, let s := run src_cfg w ls (init w scanned) in g_bad s = false ->
+       ~ (In (EvCallM o n d) (log s) /\ In (EvCallB f n (Some o)) (log s)) /\ ~ In (EvImm f n) (log s).
+     C17_never_both_refuted above is the witness that the hypothesis cannot be dropped (candidate
+     finding F13: reproduced on the real implementation by harness/c17.py, extra_legs).
+
+   C17_at_most_once for built-in functions: forall f, at most one EvCallB f / EvImm f event. *)
